@@ -1,5 +1,7 @@
 import MetadorModel.Model.Merge
 import MetadorModel.Proofs.Listing
+import MetadorModel.Proofs.StubFollow
+import MetadorModel.Proofs.OverlayWriteStep
 /-!
 # C10 — Patches built on a stub apply to the real record with the same result
 
@@ -96,6 +98,200 @@ def exRec : Rec Nat :=
 
 example : exRec.length = 3 ∧ ViewReplayable exRec :=
   ⟨by decide +kernel, replayableB_sound _ (by decide +kernel)⟩
+
+/-! ### existence-based updates: the stub and the real record cannot be told apart -/
+open MetadorModel.Follow
+
+/-- the stub shows the skeleton of the real record: same paths, group/dataset tags and attribute
+names at every path including the root -/
+theorem stub_sameSkel (empty : V) (r s : Rec V) (h : ViewReplayable r) (hs : stubCont empty r = .ok s) :
+    SameSkel r s := by
+  intro q
+  by_cases hq : q = []
+  · subst hq
+    refine ⟨rfl, fun k => ?_⟩
+    rw [stub_root_attr empty r s h hs k]
+    cases viewAttr r [] k <;> rfl
+  · obtain ⟨h1, h2⟩ := stub_skeleton empty r s h hs q hq
+    refine ⟨?_, fun k => ?_⟩
+    · rw [h1]
+      cases hv : viewKind r q with
+      | none => rfl
+      | some kd => cases kd <;> rfl
+    · rw [h2 k]
+      cases viewAttr r q k <;> rfl
+
+/-- the stub is one well-formed container: it satisfies the record invariant on its own -/
+theorem stub_inv (empty : V) (r s : Rec V) (h : ViewReplayable r) (hs : stubCont empty r = .ok s) : Inv s := by
+  obtain ⟨c, rfl, g, hroot⟩ := materialise_shape _ (replayable_stub empty _ h) s hs
+  exact inv_single c g hroot
+
+/-- the stub mentions no path (other than the root) that the real record never mentions -/
+theorem stub_mentions (empty : V) (r s : Rec V) (h : ViewReplayable r) (hs : stubCont empty r = .ok s) :
+    MentionSub r s := by
+  obtain ⟨c, rfl, g, _⟩ := materialise_shape _ (replayable_stub empty _ h) s hs
+  refine mentionSub_single c g r (fun q hq hne => ?_)
+  rw [(stub_skeleton empty r [c] h hs q hq).1] at hne
+  intro hn
+  rw [hn] at hne
+  exact hne rfl
+
+/-- **the existence-based write paths are determined by the skeleton.** `p` is the newest
+(patch) container, sitting on top of the older containers `r₁` resp. `r₂` (a valid continuation
+of both); `r₁` and `r₂` show the same paths, node kinds and attribute names — *not* the same
+values. Then `create_dataset`, `create_group`, `__delitem__`, `attrs[k] = v`, `del attrs[k]`
+have the same outcome `res` on both records — the same error, or success with the same new
+newest container — and leave the older containers as they are. (`copy`/`move` are excluded:
+they read values.) -/
+theorem existence_determined (p : Cont V) (r₁ r₂ : Rec V) (op : Op V) (hop : isEx op = true)
+    (hwf : WF p) (h1 : InvLast p r₁) (h2 : InvLast p r₂) (hs : SameSkel r₁ r₂)
+    (he : r₁.isEmpty = r₂.isEmpty) :
+    ∃ res : Except Err (Cont V),
+      W.step (p :: r₁) op = onTop r₁ res ∧ W.step (p :: r₂) op = onTop r₂ res := by
+  refine ⟨T.step (obsOf p r₁) p op, step_top p r₁ op hop, ?_⟩
+  rw [obsOf_congr p r₁ r₂ hwf h1 h2 hs he]
+  exact step_top p r₂ op hop
+
+/-- spelled out, success: same new patch container, older containers untouched -/
+theorem existence_determined_ok (p : Cont V) (r₁ r₂ R₁ : Rec V) (op : Op V) (hop : isEx op = true)
+    (hwf : WF p) (h1 : InvLast p r₁) (h2 : InvLast p r₂) (hs : SameSkel r₁ r₂)
+    (he : r₁.isEmpty = r₂.isEmpty) (hok : W.step (p :: r₁) op = .ok R₁) :
+    ∃ p', R₁ = p' :: r₁ ∧ W.step (p :: r₂) op = .ok (p' :: r₂) := by
+  obtain ⟨res, e1, e2⟩ := existence_determined p r₁ r₂ op hop hwf h1 h2 hs he
+  cases res with
+  | error e => rw [e1] at hok; cases hok
+  | ok p' =>
+    rw [e1] at hok
+    simp only [onTop, Except.ok.injEq] at hok
+    exact ⟨p', hok.symm, e2⟩
+
+/-- spelled out, failure: the same exception -/
+theorem existence_determined_error (p : Cont V) (r₁ r₂ : Rec V) (op : Op V) (e : Err) (hop : isEx op = true)
+    (hwf : WF p) (h1 : InvLast p r₁) (h2 : InvLast p r₂) (hs : SameSkel r₁ r₂)
+    (he : r₁.isEmpty = r₂.isEmpty) (herr : W.step (p :: r₁) op = .error e) :
+    W.step (p :: r₂) op = .error e := by
+  obtain ⟨res, e1, e2⟩ := existence_determined p r₁ r₂ op hop hwf h1 h2 hs he
+  cases res with
+  | ok p' => rw [e1] at herr; cases herr
+  | error e' =>
+    rw [e1] at herr
+    simp only [onTop, Except.error.injEq] at herr
+    rw [e2, ← herr]; rfl
+
+/-- **Patches built on the stub are the patches the real record would have built itself.**
+`ops` is an update made of existence-based operations with any number of patch boundaries
+(`commit_patch; create_patch`), performed in fresh patch containers on top of the stub `s` and,
+directly, on top of the real record `r`. Both runs report the same outcome for every operation
+and create the same list of patch containers `ps` (newest first); neither touches the older
+containers. So the record obtained by placing the patches made on the stub next to the real
+containers, `ps ++ r`, *is* the record obtained by the direct update — the same containers, hence
+the same tree, values included. It satisfies the record invariant, and the patched stub again has
+the skeleton of the patched real record.
+
+Hypothesis `InvAlong (newPatch r) ops`: the direct update of the *real* record keeps the record
+invariant `Inv` of C01 at every step. This is a property of the write paths alone (preservation
+of `Inv` by `W.step`, part of C01's `step_refines`); `stub_patch_same_result_of_step_inv` below
+discharges it from that lemma. Nothing is assumed about the run on the stub. -/
+theorem stub_patch_same_result_partial (empty : V) (r s : Rec V) (h : ViewReplayable r)
+    (hs : stubCont empty r = .ok s) (hne : r ≠ []) (ops : List (Op V))
+    (hex : ∀ op ∈ ops, isExP op = true) (hinv : InvAlong (newPatch r) ops) :
+    ∃ ps outs, ps ≠ [] ∧
+      W.run (newPatch s) ops = (ps ++ s, outs) ∧ W.run (newPatch r) ops = (ps ++ r, outs) ∧
+      Inv (ps ++ r) ∧ Inv (ps ++ s) ∧ SameSkel (ps ++ r) (ps ++ s) := by
+  have hsk := stub_sameSkel empty r s h hs
+  have hm := stub_mentions empty r s h hs
+  have he : r.isEmpty = s.isEmpty := by
+    obtain ⟨c, rfl, _, _⟩ := materialise_shape _ (replayable_stub empty _ h) s hs
+    cases r with
+    | nil => exact absurd rfl hne
+    | cons a r => rfl
+  obtain ⟨ps, outs, e1, e2, h3, h4, h5⟩ := run_same_patches ops r s Cont.init hsk hm he hex hinv
+  exact ⟨ps, outs, h3, e2, e1, h4, inv_append ps s h5 (stub_inv empty r s h hs),
+    (follow_same_skel r s hsk hm ps (invOver_of_inv ps r h4)).2⟩
+
+/-- the full statement of the clause: for every real record satisfying the record invariant,
+without the assumption on the direct run -/
+def stub_patch_same_result_statement (V : Type) : Prop :=
+  ∀ (empty : V) (r s : Rec V) (ops : List (Op V)), ViewReplayable r → stubCont empty r = .ok s →
+    r ≠ [] → Inv r → (∀ op ∈ ops, isExP op = true) →
+    ∃ ps outs, ps ≠ [] ∧
+      W.run (newPatch s) ops = (ps ++ s, outs) ∧ W.run (newPatch r) ops = (ps ++ r, outs) ∧
+      Inv (ps ++ r) ∧ Inv (ps ++ s) ∧ SameSkel (ps ++ r) (ps ++ s)
+
+/-- the only thing missing for the full statement is preservation of the record invariant by
+the basic write paths (C01 write side) -/
+theorem stub_patch_same_result_of_step_inv
+    (hstep : ∀ (R R' : Rec V) (op : Op V), isExP op = true → Inv R → W.step R op = .ok R' → Inv R') :
+    stub_patch_same_result_statement V := by
+  intro empty r s ops h hs hne hinv hex
+  exact stub_patch_same_result_partial empty r s h hs hne ops hex
+    (invAlong_of_step_inv hstep ops (newPatch r) hex ⟨wf_init, invLast_init r, hinv⟩)
+
+theorem isBasic_of_isExP (op : Op V) (h : isExP op = true) : op.isBasic = true := by
+  cases op <;> first | rfl | cases h
+
+/-- **Patches built on the stub apply to the real record with the same result** — full
+statement, no assumption on either run: the preservation of the record invariant by the basic
+write paths is `Overlay.step_inv_basic` (C01 write side). For every real record `r` satisfying
+the record invariant, its stub `s`, and every update `ops` made of existence-based operations
+and patch boundaries: the run on the stub and the direct run on the real record report the same
+outcomes and create the same patch containers `ps`; `ps ++ r` (the stub-made patches placed next
+to the real containers) is the directly updated real record. -/
+theorem stub_patch_same_result (empty : V) (r s : Rec V) (ops : List (Op V)) (h : ViewReplayable r)
+    (hs : stubCont empty r = .ok s) (hne : r ≠ []) (hinv : Inv r)
+    (hex : ∀ op ∈ ops, isExP op = true) :
+    ∃ ps outs, ps ≠ [] ∧
+      W.run (newPatch s) ops = (ps ++ s, outs) ∧ W.run (newPatch r) ops = (ps ++ r, outs) ∧
+      Inv (ps ++ r) ∧ Inv (ps ++ s) ∧ SameSkel (ps ++ r) (ps ++ s) :=
+  stub_patch_same_result_of_step_inv
+    (fun R R' op hb hI hstep => (step_inv_basic R R' op (isBasic_of_isExP op hb) hI hstep).1)
+    empty r s ops h hs hne hinv hex
+
+theorem stub_patch_same_result_holds : stub_patch_same_result_statement V :=
+  fun empty r s ops h hs hne hinv hex => stub_patch_same_result empty r s ops h hs hne hinv hex
+
+example : Inv exRec := invB_sound _ (by decide +kernel)
+
+/-- consequence for the user: at every path the real record patched with the stub-made patches
+shows the same kind/value and attributes as the directly updated real record -/
+theorem stub_patch_same_view (empty : V) (r s : Rec V) (h : ViewReplayable r)
+    (hs : stubCont empty r = .ok s) (hne : r ≠ []) (ops : List (Op V))
+    (hex : ∀ op ∈ ops, isExP op = true) (hinv : Inv r) :
+    ∃ ps, (W.run (newPatch s) ops).1 = ps ++ s ∧ (W.run (newPatch s) ops).2 = (W.run (newPatch r) ops).2 ∧
+      ∀ q, viewKind (ps ++ r) q = viewKind (W.run (newPatch r) ops).1 q ∧
+        ∀ k, viewAttr (ps ++ r) q k = viewAttr (W.run (newPatch r) ops).1 q k := by
+  obtain ⟨ps, outs, _, e1, e2, _⟩ := stub_patch_same_result empty r s ops h hs hne hinv hex
+  exact ⟨ps, by rw [e1], by rw [e1, e2], fun q => by rw [e2]; exact ⟨rfl, fun _ => rfl⟩⟩
+
+/-- non-vacuity: the three-container record `exRec`, its stub, and an update in two patches
+(create group / dataset, delete, set and delete attributes, two refused operations, nested
+`create_group` with missing ancestors); the hypothesis on the direct run holds, and evaluating
+both runs shows the same two patch containers and outcomes. -/
+def exOps : List (Op Nat) :=
+  [.grp ["c"], .set ["a", "x"] 5, .del ["b"], .sattr ["a"] "k" 8, .dattr ["a"] "k",
+   .set ["a", "y", "t"] 3, .dattr ["a"] "zz", .patch, .set ["c", "d"] 1, .del ["a", "y"],
+   .grp ["q", "w", "e"]]
+
+example : (∀ op ∈ exOps, isExP op = true) ∧ exRec ≠ [] ∧ InvAlong (newPatch exRec) exOps :=
+  ⟨by decide, by decide +kernel, invAlongB_sound _ _ (by decide +kernel)⟩
+
+example : ∃ s, stubCont 0 exRec = .ok s ∧
+    (W.run (newPatch s) exOps).1.take 2 = (W.run (newPatch exRec) exOps).1.take 2 ∧
+    (W.run (newPatch s) exOps).1.drop 2 = s ∧ (W.run (newPatch exRec) exOps).1.drop 2 = exRec ∧
+    (W.run (newPatch s) exOps).2 = [true, true, true, true, true, false, false, true, true, true] ∧
+    (W.run (newPatch exRec) exOps).2 = [true, true, true, true, true, false, false, true, true, true] :=
+  ⟨_, (materialise_eq _ (replayable_stub 0 _ (replayableB_sound _ (by decide +kernel)))).1,
+    by decide +kernel⟩
+
+/-- non-vacuity of `existence_determined`: a patch container in the middle of that update on top
+of the real record and of its stub -/
+def exMid : Cont Nat := ((W.run (newPatch exRec) (exOps.take 4)).1).headD []
+
+example : ∃ s, stubCont 0 exRec = .ok s ∧ WF exMid ∧ InvLast exMid exRec ∧ InvLast exMid s ∧
+    exRec.isEmpty = s.isEmpty ∧ exMid.length = 5 :=
+  ⟨_, (materialise_eq _ (replayable_stub 0 _ (replayableB_sound _ (by decide +kernel)))).1,
+    wfB_sound _ (by decide +kernel), invLastB_sound _ _ (by decide +kernel),
+    invLastB_sound _ _ (by decide +kernel), by decide +kernel, by decide +kernel⟩
 
 end tree
 
